@@ -1,7 +1,8 @@
 import PSO.Model.PyContainers
 /-!
 # Model of `pysyncobj/batteries.py` (ReplCounter, ReplList, ReplDict, ReplSet, ReplQueue,
-ReplPriorityQueue) — the tree with `fixes/D12-batteries-pop-default-and-full.diff` applied.
+ReplPriorityQueue) — the tree with `fixes/D12-batteries-pop-default-and-full.diff` and
+`fixes/D20-replset-pop-deterministic.diff` applied (/repo bfd6ade, 56b6cb5).
 
 One operation type per battery = its public methods with their optional arguments (`Option` =
 argument omitted).  Two interpreters per battery:
